@@ -149,6 +149,7 @@ func newTransfer(writer io.Writer, stdinState *term.State, flushInTime bool, log
 		logger: logger,
 		bgChan: make(chan struct{}, 1),
 	}
+	t.buffer.pausing = &t.pausing
 	t.bufInitAck = make(chan struct{}, 1)
 	t.bufInitPhase.Store(true)
 	t.bufferSize.Store(10240)
